@@ -380,6 +380,13 @@ func classifyLoop(p *Prog, fn *ssa.Function, li *loopInfo, pf map[*ssa.Function]
 				return "L7 flag or shrink", why
 			}
 		}
+		// L8: for more := true; more; { before, s, more = strings.Cut(s, sep) … }: the loop goes on while the separator
+		// was found, and then continues with what follows it, which is shorter by at least the separator
+		if isPhi && flag.Block() == li.header && contOnTrue && !contOnFalse {
+			if why, ok := cutUntilNotFound(flag, li); ok {
+				return "L8 cut until not found", why
+			}
+		}
 	}
 	return "", "no monotone induction variable against an invariant bound, and no exit controlled by an input-consuming call executed on every trip"
 }
@@ -803,4 +810,57 @@ func nonNegByGuard(v ssa.Value, b *ssa.BasicBlock) bool {
 		}
 	}
 	return false
+}
+
+// cutUntilNotFound: more is a header phi fed round the loop by the "found" result of strings.Cut / bytes.Cut of a
+// header phi s with a non-empty constant separator, and s is fed by the "after" result of the same call.
+func cutUntilNotFound(more *ssa.Phi, li *loopInfo) (string, bool) {
+	for i, e := range more.Edges {
+		if !li.blocks[li.header.Preds[i]] {
+			continue
+		}
+		ex, ok := e.(*ssa.Extract)
+		if !ok || ex.Index != 2 {
+			return "", false
+		}
+		call, ok := ex.Tuple.(*ssa.Call)
+		if !ok {
+			return "", false
+		}
+		if n := calleeName(&call.Call); n != "strings.Cut" && n != "bytes.Cut" {
+			return "", false
+		}
+		sep := call.Call.Args[1]
+		if cs, ok := constStr(stripConv(sep)); ok {
+			if cs == "" {
+				return "", false
+			}
+		} else if sl, ok := sep.(*ssa.Slice); ok {
+			// []byte{c}: a literal of at least one byte
+			al, isAl := sl.X.(*ssa.Alloc)
+			if !isAl {
+				return "", false
+			}
+			if at, ok := al.Type().Underlying().(*types.Pointer).Elem().Underlying().(*types.Array); !ok || at.Len() < 1 {
+				return "", false
+			}
+		} else {
+			return "", false
+		}
+		sph, ok := call.Call.Args[0].(*ssa.Phi)
+		if !ok || sph.Block() != li.header {
+			return "", false
+		}
+		for j, se := range sph.Edges {
+			if !li.blocks[li.header.Preds[j]] {
+				continue
+			}
+			sx, ok := se.(*ssa.Extract)
+			if !ok || sx.Tuple != ssa.Value(call) || sx.Index != 1 {
+				return "", false
+			}
+		}
+		return fmt.Sprintf("the loop goes on while Cut finds the separator in %s and continues with what follows it: each further trip starts with a strictly shorter text", phiName(sph)), true
+	}
+	return "", false
 }
